@@ -177,3 +177,32 @@ func updateFileDataWithPointsList(db *whispertool.Whisper, pointsList PointsList
 	}
 	return nil
 }
+
+// updateFileDataWithTimeSeriesList writes the points of srcTsList which differ from
+// the current content of db, one archive at a time from the finest to the coarsest.
+// The difference for an archive is taken right before that archive is written,
+// because writing a finer archive also rewrites coarser archives by propagation.
+// It returns the points written.
+func updateFileDataWithTimeSeriesList(db *whispertool.Whisper, srcTsList TimeSeriesList, archiveID int, from, until, now whispertool.Timestamp, copyNaN bool) (PointsList, error) {
+	writtenPl := make(PointsList, len(srcTsList))
+	for i, srcTs := range srcTsList {
+		if archiveID != ArchiveIDAll && archiveID != i {
+			continue
+		}
+		destTs, err := db.FetchFromArchive(i, from, until, now)
+		if err != nil {
+			return nil, err
+		}
+		var pts whispertool.Points
+		if copyNaN {
+			pts, _ = srcTs.DiffPoints(destTs)
+		} else {
+			pts, _ = srcTs.DiffPointsExcludeSrcNaN(destTs)
+		}
+		if err := db.UpdatePointsForArchive(pts, i, now); err != nil {
+			return nil, err
+		}
+		writtenPl[i] = pts
+	}
+	return writtenPl, nil
+}
